@@ -286,6 +286,22 @@ func runCase(dir string, n int, line string) (res string) {
 				}
 				out = append(out, "call=ok "+ps)
 			}
+		case "upcall":
+			// the same call through Connection.Upgrade: an error reply must arrive as the same error value
+			recv, err := conn.Upgrade(cctx, string(vt.Unhex(f[1])), hs.ParseValue(f[2]))
+			if err == nil {
+				var raw json.RawMessage
+				_, _, err = recv(cctx, &raw)
+			}
+			if err != nil {
+				c := classify(err)
+				out = append(out, "ucall="+c)
+				if stops(c) {
+					stop = true
+				}
+			} else {
+				out = append(out, "ucall=ok")
+			}
 		case "typedcall":
 			// a caller with a typed reply struct whose field names also occur in error parameters, with other types:
 			// an error reply must arrive as the error, whatever the reply struct looks like
